@@ -6,6 +6,14 @@ HERE = os.path.dirname(os.path.abspath(__file__))
 TECH = "deterministic simulation with fault injection: seeded runs of the real library on a simulated block device (SimDisk); "
 
 CHECKS = {
+ "C04": dict(level="exploration", design="§5 C04",
+   text="Seeded histories (mkdir, create, writes at start/inside/EOF/EOF+gap in several steps, append, symlinks around the 60-byte inline limit, remove, chmod with all 12 bits, chown over the 16/32-bit ranges, chtimes, many files per directory, interleaved appends that fragment extents, reopen) on ext4 volumes with 1 KiB/4 KiB blocks, with/without journal and metadata checksums, at start 0 / 1 MiB / 5 GiB on the simulated device; after every operation listings, contents, link targets and the attributes the history set are compared with an in-memory tree, live, through the writing handle and after re-opening from the bytes.",
+   note="Seeded sampling. Attributes are compared only once the history has set them; a path touched by a refused call is excluded afterwards; truncating open is not in the statement and not issued.",
+   technique=TECH+"seeded operation histories vs in-memory reference tree with attributes, reopen-from-bytes"),
+ "C05": dict(level="exploration", design="§5 C05",
+   text="After Create with a seeded parameter set (block size, blocks per group, inode ratio/count, journal, 64bit, flex_bg, metadata_csum, sparse_super2; sizes with full and partial last groups) and after every operation of a seeded history, accepted or refused, the durable bytes of the volume are handed to the reference checker: e2fsck -f -n must exit 0; every fourth step and at the end debugfs rdump extracts the tree and files and link targets are compared with what was written.",
+   note="Seeded sampling; the oracle is an independent implementation (e2fsprogs 1.47.0). Two open known findings (sparse_super2, explicit blocks-per-group corner cases) are listed in known_findings.jsonl and drawn in a minority of runs.",
+   technique=TECH+"seeded histories with e2fsck/debugfs (independent implementation) evaluated on the device bytes after every step"),
  "C11": dict(level="exploration", design="§5 C11",
    text="Images of every filesystem kind (whole device or inside a GPT/MBR partition) are attached read-only in four ways (backend whose Writable() fails, file.New(readOnly), file.OpenFromPath(readOnly), diskfs.Open(ReadOnly) on a real scratch file) and driven with seeded histories interleaving every public reading call with every public mutating call (Partition, WritePartitionContents, CreateFilesystem, Mkdir, OpenFile with write/create/append/truncate flags, Write, Rename, Remove, SetLabel, Chmod, Chown, Chtimes, Symlink); each mutating call must return an error, the simulated device must see zero WriteAt calls and an unchanged SHA-256; on a read-write attachment the reading calls alone must not write.",
    note="Seeded sampling. For the two OS-file attachments the operating system enforces read-only and the file hash is compared. In-memory state after a refused call is not judged (the statement is about the image).",
